@@ -15,9 +15,12 @@ def structures(n):
             out.append([list(a) for a in alts])
     return out
 
-def spec(nschemes, ops, global_sec=None):
+def spec(nschemes, ops, global_sec=None, unsupported=()):
     L = ["openapi: 3.0.3", "info: {title: t, version: '1'}", "components:", "  securitySchemes:"]
     for i in range(nschemes):
+        if i in unsupported:
+            L.append("    s%d: {type: openIdConnect, openIdConnectUrl: 'https://id.example/.well-known/openid-configuration'}" % i)
+            continue
         L.append("    s%d: {type: apiKey, in: header, name: X-S%d}" % (i, i))
     if global_sec is not None:
         L.append("security:")
@@ -42,7 +45,7 @@ def data_go(nschemes, ops):
     L = ["package PKGNAME", "", "var zzNumSchemes = %d" % nschemes, "", "var zzOps = []zzOp{"]
     for i, op in enumerate(ops):
         alts = op["effective"]
-        L.append("\t{Path: \"/op%d\", Name: \"Op%d\", Alts: [][]int{%s}}," % (i, i, ", ".join("{%s}" % ", ".join(str(s) for s in a) for a in alts)))
+        L.append("\t{Path: \"/op%d\", Name: \"Op%d\", Alts: [][]int{%s}, Mention: []int{%s}}," % (i, i, ", ".join("{%s}" % ", ".join(str(s) for s in a) for a in alts), ", ".join(str(s) for s in op.get("mention", []))))
     L.append("}")
     return "\n".join(L) + "\n"
 
@@ -57,15 +60,23 @@ def adapter_go(nschemes, ops):
     return "\n".join(L) + "\n"
 
 packages, cases = [], []
-def add_pkg(name, nschemes, ops, global_sec=None, modes=(0,)):
+def add_pkg(name, nschemes, ops, global_sec=None, modes=(0,), unsupported=()):
     for op in ops:
         if op.get("inherit"):
             op["effective"] = global_sec
         else:
             op["effective"] = op["alts"]
+        if unsupported and op["effective"] is not None:
+            # an alternative that needs a scheme ogen does not implement cannot be satisfied through ogen: with
+            # 'ignore not implemented' it is left out and the remaining alternatives are the requirement
+            op["mention"] = sorted({s for a in op["effective"] for s in a if s not in unsupported})
+            op["effective"] = [a for a in op["effective"] if not set(a) & set(unsupported)]
     idx = len(packages)
-    packages.append({"name": name, "spec": spec(nschemes, ops, global_sec),
-                     "extra_go": {"data.go": data_go(nschemes, ops), "adapter.go": adapter_go(nschemes, ops)}})
+    pkg = {"name": name, "spec": spec(nschemes, ops, global_sec, unsupported),
+           "extra_go": {"data.go": data_go(nschemes, ops), "adapter.go": adapter_go(nschemes, ops)}}
+    if unsupported:
+        pkg["ignore_not_implemented"] = ["all"]
+    packages.append(pkg)
     for i in range(len(ops)):
         for m in modes:
             cases.append([idx, i, m])
@@ -99,6 +110,16 @@ add_pkg("g12", 12, [
     {"alts": [[0, 1, 2, 3, 4, 5, 6, 7], [8, 9], [10, 11]]},  # one alternative per mask byte
     {"alts": [[11, 3], [4, 5, 6], [7, 8, 9, 10], [0, 1, 2]]},
 ], modes=(1, 2))
+# alternatives that need an unimplemented scheme type (openIdConnect), generated with 'ignore not implemented':
+# the remaining alternatives must still be enforced (supported schemes named before and after the unsupported one,
+# reused by later alternatives)
+add_pkg("gu", 5, [
+    {"alts": [[0, 3], [0]]},
+    {"alts": [[1, 3], [0], [1]]},
+    {"alts": [[3, 4], [4, 2], [2]]},
+    {"alts": [[0], [0, 3], [1]]},
+    {"alts": [[0, 1, 3], [1, 2]]},
+], unsupported=(3,))
 print(json.dumps({"packages": packages, "cases": {tier: [{"entry": "HGate", "args": cases}]},
-                  "bounds": {"requirement_structures": "all 15 structures over 2 schemes; %s over 3 schemes; global security with per-operation override / explicit empty / anonymous alternative; 20 declared schemes with operations using up to six of them; five operations that mention 9..12 distinct schemes so that their masks have two bytes (presence/verdict symbolic at mask positions 0,1,6..9 and the last; the others fixed absent or fixed accepted)" % ("12 seeded of the 255" if tier == "quick" else "all 255"),
+                  "bounds": {"requirement_structures": "all 15 structures over 2 schemes; %s over 3 schemes; global security with per-operation override / explicit empty / anonymous alternative; 20 declared schemes with operations using up to six of them; five operations with an alternative that needs an unimplemented scheme type (generated with ignore_not_implemented: the other alternatives stay enforced); five operations that mention 9..12 distinct schemes so that their masks have two bytes (presence/verdict symbolic at mask positions 0,1,6..9 and the last; the others fixed absent or fixed accepted)" % ("12 seeded of the 255" if tier == "quick" else "all 255"),
                              "per_request": "for every scheme of the operation: credential present or absent (symbolic) and the SecurityHandler's verdict accept / ErrSkipServerSecurity / other error (symbolic); schemes not used by the operation also carry symbolic credentials"}}))
